@@ -26,7 +26,8 @@
 (*             forward reference in pass 1, an error in pass 2             *)
 (*   burstE n, burstW n, burstU n   REPT n of an err / warn / uwarn line   *)
 (*   expect, endexpect      EXPECT 1200 ... ENDEXPECT                      *)
-(*   flag f    an ON/OFF style instruction setting mode flag f             *)
+(*   flag f    an ON/OFF style instruction setting mode flag f, or the     *)
+(*             definition of macro / function / symbol f (twice: error)    *)
 (*   probe f   a line whose code depends on mode flag f                    *)
 (*   use f     a line using table entry f (a macro / a function defined    *)
 (*             by `flag f`): an error unless f is defined                  *)
@@ -80,6 +81,9 @@ Opened(c) == c.ifd > 0 \/ c.rec # "none" \/ c.svd > 0 \/ c.std > 0 \/ c.sed > 0 
 
 Emit(c, t, v) == [c EXCEPT !.code = Append(@, [t |-> t, v |-> v])]
 
+\* "flags" that are definitions (a macro, a function, a symbol): defining one twice is an error
+Defs == {"macro", "func", "sym"}
+
 \* one source line in pass `pass`
 LineStep(o, st, ln, pass) ==
   LET d == st.d
@@ -104,7 +108,10 @@ LineStep(o, st, ln, pass) ==
                                                       ELSE RepeatClosed([o EXCEPT !.suppw = FALSE], d, NumNullResMem, ln.n)]
             [] ln.k = "expect"    -> [st EXCEPT !.d = CodeEXPECT(o, d, <<NumUnknownInstr>>)]
             [] ln.k = "endexpect" -> [st EXCEPT !.d = CodeENDEXPECT(o, d)]
-            [] ln.k = "flag"      -> [st EXCEPT !.c.flags = @ \cup {ln.f}]
+            [] ln.k = "flag"      -> IF ln.f \in Defs /\ ln.f \in c.flags                \* defined twice
+                                     THEN [st EXCEPT !.d = WrXErrorPos(o, d, IF ln.f = "macro" THEN NumDoubleMacro
+                                                                                ELSE NumDoubleDef)]
+                                     ELSE [st EXCEPT !.c.flags = @ \cup {ln.f}]
             [] ln.k = "probe"     -> [st EXCEPT !.c = Emit(c, ln.f, ln.f \in c.flags)]
             [] ln.k = "use"       -> IF ln.f \in c.flags THEN [st EXCEPT !.c = Emit(c, ln.f, TRUE)]
                                      ELSE [st EXCEPT !.d = WrXErrorPos(o, d, IF ln.f = "macro" THEN NumUnknownInstr
